@@ -258,15 +258,16 @@ def encoding_chain(ctx: Ctx) -> None:
                    f"try_encodings is {kind} under {unparse_facts(facts(ctx, fo, c2))}: an explicit encoding= must become the single tried encoding, otherwise the default list applies", node=c2)
         ctx.expect("R-FWD", fo, "open() opens the caller's filename", bool(c2.args) and isinstance(c2.args[0], ast.Name) and c2.args[0].id == "filename" and lo.only_param("filename"), "", "", node=c2)
     ctx.expect("R-FWD", fo, "open() handles both the default list and an explicit encoding", covered == {"default", "explicit"}, str(sorted(covered)), f"covered cases: {sorted(covered)}", node=fo.node)
-    rr = [r for r in body_walk(fo.node) if isinstance(r, ast.Return)]
-    def _is_site(e):
-        e = inline(e, fo)
-        return any(norm(e) == norm(inline(s_, fo)) for s_ in sites)
-
-    good = bool(rr) and all(isinstance(r.value, ast.Subscript) and _is_site(r.value.value) and try_ev(ctx, fo, r.value.slice) == 0 for r in rr)
-    cfo = ctx.cfg(fo)
-    good = good and cfo.must_pass([cfg_node_of(cfo, fo, r) for r in rr]) is None
-    ctx.expect("R-TABLE", fo, "open() returns the simfile element of the result", good, "", "open() does not return result[0] on every path", node=fo.node)
+    from .tables import closed as _closed, sums_of as _tsums
+    outs = set()
+    for s_ in _tsums(ctx, fo):
+        k_, v_ = s_.terminal()
+        if s_.end == "raise":
+            continue
+        v_ = _closed(s_, v_, opq=frozenset(n for n in (x.id for x in ast.walk(v_) if isinstance(x, ast.Name))) if v_ is not None else None)
+        outs.add(ast.unparse(v_) if v_ is not None else "None")
+    good = bool(outs) and all(o.startswith("open_with_detected_encoding(") and o.endswith(")[0]") for o in outs)
+    ctx.expect("R-TABLE", fo, "open() returns the simfile element of the result", good, str(sorted(outs))[:200], f"open() returns {sorted(outs)}: not element 0 of open_with_detected_encoding(...) on every path", node=fo.node)
 
 
 class MutateModel:
